@@ -765,6 +765,16 @@ func c03SinglePath(c *core.Ctx, fns map[string]*an.Fn) {
 	} else {
 		c.Miss("R5", "func=KV.mergeBytesValueForKey", "not found")
 	}
+	c03ComputeNewValue(c, "R5")
+}
+
+// c03ComputeNewValue: the stored value is merged as oldVal.Merge(incoming, cas) with the parameters
+// unchanged, and the only caller derives the origin flag from the CAS version alone (casVersion > 0):
+// a merge is treated as a full-state local CAS only when it is a CAS on a version that was read
+// (shared with C06.R8: treating a first write or a gossiped value as full state would tombstone the
+// entries of every other node).
+func c03ComputeNewValue(c *core.Ctx, R string) {
+	ml := c.Prog.Pkg("kv/memberlist")
 	if fn := an.FindFunc(ml, "computeNewValue"); fn != nil {
 		c.Analysed(fn.String())
 		ok := false
@@ -775,6 +785,19 @@ func c03SinglePath(c *core.Ctx, fns map[string]*an.Fn) {
 				}
 			}
 		}
-		c.Check(ok, "R5", "memberlist:computeNewValue", fn.Pos(), "computeNewValue merges as oldVal.Merge(incoming, cas) with its parameters unchanged", 1)
+		c.Check(ok, R, "memberlist:computeNewValue", fn.Pos(), "computeNewValue merges as oldVal.Merge(incoming, cas) with its parameters unchanged", 1)
+	}
+	if fn := an.FindFunc(ml, "KV.mergeValueForKey"); fn != nil {
+		c.Analysed(fn.String())
+		calls := fn.CallsTo(false, "kv/memberlist", "computeNewValue")
+		ok := len(calls) == 1 && len(calls[0].Expr.Args) == 4
+		flag := ""
+		if ok {
+			flag = fn.Canon(calls[0].Expr.Args[3])
+			ok = flag == "(p3 > 0)" || flag == "(0 < p3)"
+		}
+		c.Check(ok, R, "memberlist:mergeValueForKey:origin", fn.Pos(), "the origin flag given to the merge is derived from the CAS version alone: "+flag+" (must be casVersion > 0)", 1)
+	} else {
+		c.Miss(R, "func=KV.mergeValueForKey", "not found")
 	}
 }
